@@ -393,6 +393,12 @@ func (bc *buildCtx) realImpl(d *D) interface{} {
 	case "RVIdx":
 		// an interface-kind value (what a generic walker gets from a slice element): accessible, addressable
 		return reflect.ValueOf([]interface{}{bc.real(d.Sub[0])}).Index(0)
+	case "RVIdxS":
+		// the same from a slice typed with a non-empty interface (the static type has methods)
+		if st, ok := bc.real(d.Sub[0]).(fmt.Stringer); ok {
+			return reflect.ValueOf([]fmt.Stringer{st}).Index(0)
+		}
+		return reflect.ValueOf([]interface{}{bc.real(d.Sub[0])}).Index(0)
 	case "RVFieldI":
 		// an interface-kind value from an unexported field: read-only
 		return reflect.ValueOf(tSUnexp{int(d.N), string(d.S), bc.real(d.Sub[0])}).Field(2)
@@ -777,7 +783,7 @@ func (bc *buildCtx) plain(d *D) interface{} {
 		return tFmtFwd{bc.plain(d.Sub[0])}
 	case "RValue":
 		return reflect.ValueOf(bc.plain(d.Sub[0]))
-	case "RVIdx":
+	case "RVIdx", "RVIdxS":
 		return reflect.ValueOf([]interface{}{bc.plain(d.Sub[0])}).Index(0)
 	case "RVFieldI":
 		if containsWrapper(d.Sub[0]) {
@@ -902,7 +908,7 @@ func (bc *buildCtx) twin(d *D, ctx int) interface{} {
 			return nil
 		}
 		return reflect.ValueOf(v)
-	case "RVIdx":
+	case "RVIdx", "RVIdxS":
 		if wrappedNil(d.Sub[0]) {
 			// the content of a wrapper is printed like a top-level operand (a nil is padded); the stand-in
 			// would be a nil interface inside the reflect.Value (not padded by fmt)
@@ -1018,7 +1024,7 @@ func (bc *buildCtx) twinSafe(d *D) interface{} {
 			return nil
 		}
 		return reflect.ValueOf(v)
-	case "RVIdx":
+	case "RVIdx", "RVIdxS":
 		if wrappedNil(d.Sub[0]) {
 			bc.fail("reflect.Value of a wrapper around nil")
 			return nil
